@@ -5,7 +5,8 @@ cd "$(dirname "$0")/.."
 R="${KODA_REPO:-/repo}"
 for d in seeded/${1}*/; do
   id=$(basename $d)
-  prop=$(python3 -c "import json;print(json.load(open('$d/meta.json'))['breaks_property'])")
+  # the check that is expected to report it: the first entry of caught_by (usually the property it breaks)
+  prop=$(python3 -c "import json;m=json.load(open('$d/meta.json'));print((m.get('caught_by') or [m['breaks_property']])[0].split(':')[0])")
   if ! git -C "$R" apply --check "$PWD/$d/patch.diff" 2>/dev/null; then echo "$id $prop PATCH-DOES-NOT-APPLY"; continue; fi
   echo "$id $(tools/try_mutant.sh "$PWD/$d/patch.diff" $prop | head -1)"
 done
